@@ -75,6 +75,27 @@ def stepOp (m : M) (op impl : String) : M × String × String :=
       | some recs =>
         ({ m with stream := some recs, cuts := sorted },
           s!"ok ch={recs.length} msgs={msgCount recs} maxid={maxId recs} crcok=true", "ok")
+  | ["pimport"] =>
+    -- probe every channel on the fresh target, restore, then LEO + one strict append on the same instance
+    match m.stream with
+    | none => (m, "no-stream", "ok")
+    | some recs =>
+      match importStream [] recs with
+      | none => (m, "err:corrupt # " ++ C09D.dump [], "ok")
+      | some t' =>
+        let leos := m.cuts.map (fun c => s!"{c.ch}:{leo t' c.ch}")
+        let (t2, apps) := m.cuts.foldl (fun (acc : Store × List String) c =>
+          if c.ch == 3 then acc else
+          let (r, s2) := step acc.1 (.app c.ch 0 [⟨900000 + c.ch, 0, 0, 0, 1⟩])
+          (s2, acc.2 ++ [s!"{c.ch}:" ++ (match r with | .ok [b] => toString b | _ => r.str)])) (t', [])
+        let out := s!"ok leo={",".intercalate leos} app={",".intercalate apps} # " ++ C09D.dump t2
+        let verdict :=
+          if kv implRes "leo" ≠ some (",".intercalate leos) then "viol:restored-leo-stale-on-same-instance"
+          else if kv implRes "app" ≠ some (",".intercalate apps) then "viol:append-after-restore-at-wrong-seq"
+          else match implDump with
+            | some d => C09D.judgeDump d
+            | none => "viol:no-dump"
+        (m, out, verdict)
   | ["interrupt", pm] =>
     -- a restore interrupted in the install pass, store reopened, retried: must converge to the clean restore
     match C09D.num pm, m.stream with
